@@ -29,15 +29,14 @@ theorem refused_exit1 (fx : Fixes) (fl : Flags) : mainExit fx fl .refused = 1 :=
 
 /-! ## the -S loop -/
 
-/-- repaired loop (D8): -S returns the largest code, raised to RC_FAILED (254) if a host failed -/
-theorem S_is_max (fx : Fixes) (hd8 : fx.d8 = true) (hs : List Host) : aggregate fx hs = specAgg hs := by
-  unfold aggregate specAgg maxRc
-  rw [aggLoop_fixed fx hd8]
-  have := maxRcFrom_ge 0 hs
-  split <;> omega
+/-- repaired loop (D8): -S returns the largest code, raised to RC_FAILED (254) if a target is seen as failed
+    (`seen`: a failed one, and with the `canc` repair also a canceled one) -/
+theorem S_is_max (fx : Fixes) (hd8 : fx.d8 = true) (hs : List Host) :
+    aggregate fx hs = specAgg (hs.map (seen fx)) :=
+  aggLoop_specAgg fx hd8 _
 
 /-- FALSE of the unchanged loop: `rc = RC_FAILED` overwrites the larger 255 seen before -/
-theorem S_is_max_unchanged_false : ¬ ∀ hs, aggregate Fixes.none hs = specAgg hs := by
+theorem S_is_max_unchanged_false : ¬ ∀ hs, aggregate Fixes.none hs = specAgg (hs.map (seen Fixes.none)) := by
   intro h
   have := h [⟨.done, 255⟩, ⟨.failed, 0⟩]
   revert this
@@ -45,9 +44,13 @@ theorem S_is_max_unchanged_false : ¬ ∀ hs, aggregate Fixes.none hs = specAgg 
 
 /-- the unchanged loop is right as long as no code exceeds RC_FAILED -/
 theorem S_is_max_partial (fx : Fixes) (hs : List Host) (h : ∀ x ∈ hs, x.rc ≤ RC_FAILED) :
-    aggregate fx hs = specAgg hs := by
-  rw [← S_is_max Fixes.all rfl]
-  exact aggLoop_unchanged_eq fx Fixes.all rfl 0 hs (by decide) h
+    aggregate fx hs = specAgg (hs.map (seen fx)) := by
+  rw [← aggLoop_specAgg Fixes.all rfl]
+  refine aggLoop_unchanged_eq fx Fixes.all rfl 0 _ (by decide) ?_
+  intro x hx
+  obtain ⟨y, hy, rfl⟩ := List.mem_map.mp hx
+  rw [seen_rc]
+  exact h y hy
 
 example : ∃ hs : List Host, (∀ x ∈ hs, x.rc ≤ RC_FAILED) ∧ hs.length = 2 ∧ specAgg hs = 254 :=
   ⟨[⟨.done, 7⟩, ⟨.failed, 1⟩], by decide⟩
@@ -56,13 +59,16 @@ example : ∃ hs : List Host, (∀ x ∈ hs, x.rc ≤ RC_FAILED) ∧ hs.length =
 theorem aggregate_perm (fx : Fixes) (hd8 : fx.d8 = true) {hs hs' : List Host} (p : hs.Perm hs') :
     aggregate fx hs = aggregate fx hs' := by
   rw [S_is_max fx hd8, S_is_max fx hd8]
+  have p' := p.map (seen fx)
+  generalize hs.map (seen fx) = l at p' ⊢
+  generalize hs'.map (seen fx) = l' at p' ⊢
   unfold specAgg maxRc maxRcFrom anyFailed
-  have h1 : hs.foldl (fun a h => max a h.rc) 0 = hs'.foldl (fun a h => max a h.rc) 0 :=
-    p.foldl_eq' (fun x _ y _ z => by omega) 0
-  have h2 : (hs.any fun h => decide (h.state = State.failed)) = (hs'.any fun h => decide (h.state = State.failed)) := by
+  have h1 : l.foldl (fun a h => max a h.rc) 0 = l'.foldl (fun a h => max a h.rc) 0 :=
+    p'.foldl_eq' (fun x _ y _ z => by omega) 0
+  have h2 : (l.any fun h => decide (h.state = State.failed)) = (l'.any fun h => decide (h.state = State.failed)) := by
     rw [Bool.eq_iff_iff]
     simp only [List.any_eq_true]
-    exact ⟨fun ⟨x, hx, hp⟩ => ⟨x, p.mem_iff.mp hx, hp⟩, fun ⟨x, hx, hp⟩ => ⟨x, p.mem_iff.mpr hx, hp⟩⟩
+    exact ⟨fun ⟨x, hx, hp⟩ => ⟨x, p'.mem_iff.mp hx, hp⟩, fun ⟨x, hx, hp⟩ => ⟨x, p'.mem_iff.mpr hx, hp⟩⟩
   rw [h1, h2]
 
 /-- FALSE of the unchanged loop: the same two targets in the other order give another status -/
@@ -73,15 +79,49 @@ theorem aggregate_perm_unchanged_false :
   revert this
   decide
 
-/-- -S is 0 exactly when no target failed and no code is positive (every variant, also the unchanged one) -/
-theorem S_zero_iff (fx : Fixes) (hs : List Host) :
-    aggregate fx hs = 0 ↔ ∀ h ∈ hs, h.state ≠ .failed ∧ h.rc ≤ 0 :=
-  aggLoop_zero_iff fx hs
+/-- every variant: -S is 0 exactly when no target is seen as failed and no code is positive -/
+theorem S_zero_iff_seen (fx : Fixes) (hs : List Host) :
+    aggregate fx hs = 0 ↔ ∀ h ∈ hs, (seen fx h).state ≠ .failed ∧ h.rc ≤ 0 := by
+  unfold aggregate
+  rw [aggLoop_zero_iff]
+  constructor
+  · intro h x hx
+    have := h (seen fx x) (List.mem_map.mpr ⟨x, hx, rfl⟩)
+    rwa [seen_rc] at this
+  · intro h y hy
+    obtain ⟨x, hx, rfl⟩ := List.mem_map.mp hy
+    rw [seen_rc]
+    exact h x hx
 
-/-- F08-CANCELED (known finding, a behavioural choice): a target canceled by ^C^Z never ran, yet
-    does not prevent status 0 — `S_zero_iff` speaks of `≠ failed`, not of `= done` -/
-theorem canceled_counts_as_success (fx : Fixes) : aggregate fx [⟨.canceled, 0⟩] = 0 := by
-  simp [aggregate, aggLoop]
+/-- S_ZERO_IFF at full strength (repair `canc`, canceledCountsAsFailure): with remote codes >= 0, -S is 0
+    exactly when EVERY target's command ran to its end (state DONE) and returned 0 -/
+theorem S_zero_iff (fx : Fixes) (hc : fx.canc = true) (hs : List Host) (hnn : ∀ h ∈ hs, 0 ≤ h.rc) :
+    aggregate fx hs = 0 ↔ ∀ h ∈ hs, h.state = .done ∧ h.rc = 0 := by
+  rw [S_zero_iff_seen]
+  constructor
+  · intro h x hx
+    obtain ⟨h1, h2⟩ := h x hx
+    exact ⟨(seen_not_failed_iff fx hc x).mp h1, by have := hnn x hx; omega⟩
+  · intro h x hx
+    obtain ⟨h1, h2⟩ := h x hx
+    exact ⟨(seen_not_failed_iff fx hc x).mpr h1, by omega⟩
+
+/-- what holds of the code WITHOUT the `canc` repair: 0 iff no target FAILED and no code is positive —
+    `≠ failed`, not `= done` -/
+theorem S_zero_iff_unchanged (fx : Fixes) (hc : fx.canc = false) (hs : List Host) :
+    aggregate fx hs = 0 ↔ ∀ h ∈ hs, h.state ≠ .failed ∧ h.rc ≤ 0 := by
+  rw [S_zero_iff_seen]
+  simp only [seen_unrepaired fx hc]
+
+/-- F08-CANCELED: `S_zero_iff` is FALSE without the `canc` repair — a target canceled by ^C^Z never ran, yet the
+    status is 0; with the repair the same run gives 254 -/
+theorem canceled_counts_as_success (fx : Fixes) (hc : fx.canc = false) : aggregate fx [⟨.canceled, 0⟩] = 0 := by
+  simp [aggregate, aggLoop, seen, hc]
+
+theorem canceled_counts_as_failure (fx : Fixes) (hc : fx.canc = true) :
+    aggregate fx [⟨.done, 0⟩, ⟨.canceled, 0⟩] = 254 := by
+  have : RC_FAILED = 254 := by decide
+  cases hd : fx.d8 <;> simp [aggregate, aggLoop, seen, hc, hd, this] <;> omega
 
 /-! ## marker extraction -/
 
@@ -166,52 +206,6 @@ theorem k_any_failure_nonzero (fx : Fixes) (S : Bool) (hs : List Host) (h : ∃ 
   have : hs.any kFails = true := by simpa [List.any_eq_true] using h
   simp [mainExit, this]
 
-/-! ## the repaired model refines the specification (out-of-band channel) -/
-
-/-- for every vector of outcomes in the property's domain (exit codes 0..255, signals 1..64, connect
-    failure, time-out), in any order, with and without -S / -k, the exit status the repaired model (D7, D8)
-    computes for `-R exec` is one the specification admits -/
-theorem exec_exit_admissible (fx : Fixes) (hd7 : fx.d7 = true) (hd8 : fx.d8 = true) (S k : Bool)
-    (outs : List Outcome) (hok : ∀ o ∈ outs, okOutcome o) :
-    ExitSpec.admissible S k false outs
-      (mainExit fx ⟨S, k⟩ (.started (outs.map fun o => hostOf fx (execScript fx o)))) = true := by
-  rw [map_execHost fx hd7 outs hok]
-  obtain ⟨m1, m2, m3, m4⟩ := exec_maxRc outs hok
-  have hF := exec_anyFailed outs
-  have hK := exec_anyKFails outs
-  have hagg := S_is_max fx hd8 (outs.map execHostSpec)
-  have hR : RC_FAILED = 254 := by decide
-  have m0 := maxRcFrom_ge 0 (outs.map execHostSpec)
-  unfold ExitSpec.admissible mainExit dshReturn
-  simp only [hK, Bool.false_eq_true, if_false]
-  by_cases hk : (k && outs.any ExitSpec.Outcome.isFailure) = true
-  · simp [hk]
-  · simp only [hk, if_false, Bool.false_eq_true]
-    cases S with
-    | false => simp [exitStatus]
-    | true =>
-      simp only [Bool.not_true, Bool.false_eq_true, if_false, if_true, hagg]
-      unfold specAgg ExitSpec.base exitStatus
-      rw [hF]
-      unfold maxRc at *
-      by_cases hkl : outs.any ExitSpec.Outcome.isKilled = true
-      · have := m3 hkl
-        simp only [hkl, if_true, Bool.and_eq_true, decide_eq_true_eq]
-        by_cases hu : outs.any ExitSpec.Outcome.unreachable = true
-        · simp only [hu, if_true, hR]; omega
-        · simp only [hu, if_false, Bool.false_eq_true]; omega
-      · have hkl' : outs.any ExitSpec.Outcome.isKilled = false := by simpa using hkl
-        obtain ⟨j1, j2⟩ := m4 hkl'
-        simp only [hkl, if_false, Bool.false_eq_true, decide_eq_true_eq]
-        by_cases hu : outs.any ExitSpec.Outcome.unreachable = true
-        · simp only [hu, if_true, hR]; omega
-        · have hu' : outs.any ExitSpec.Outcome.unreachable = false := by simpa using hu
-          have := j2 hu'
-          simp only [hu, if_false, Bool.false_eq_true]; omega
-
-example : ∀ o ∈ [ExitSpec.Outcome.exited 255, .killed 9, .connectFailed, .timedOut], okOutcome o := by
-  simp [okOutcome]
-
 /-! ## the repaired model refines the specification, for every status channel -/
 
 /-- MAIN REFINEMENT (repaired -S loop, D8): whatever the channel, if what the loop sees of every target is
@@ -223,6 +217,7 @@ theorem faithful_exit_admissible (fx : Fixes) (hd8 : fx.d8 = true) (S k : Bool)
     ExitSpec.admissible S k false outs (mainExit fx ⟨S, k⟩ (.started hs)) = true := by
   obtain ⟨hF, hK, m1, m2, m3, m4⟩ := faithful_invariants outs hs hrel hok
   have hagg := S_is_max fx hd8 hs
+  rw [map_seen_of_no_canceled fx hs (allFaithful_not_canceled hrel)] at hagg
   have hR : RC_FAILED = 254 := by decide
   have m0 := maxRcFrom_ge 0 hs
   unfold ExitSpec.admissible mainExit dshReturn
@@ -251,6 +246,22 @@ theorem faithful_exit_admissible (fx : Fixes) (hd8 : fx.d8 = true) (S k : Bool)
         · have hu' : outs.any ExitSpec.Outcome.unreachable = false := by simpa using hu
           have := j2 hu'
           simp only [hu, if_false, Bool.false_eq_true]; omega
+
+/-! ## the repaired model refines the specification (out-of-band channel) -/
+
+/-- for every vector of outcomes in the property's domain (exit codes 0..255, signals 1..64, connect
+    failure, time-out), in any order, with and without -S / -k, the exit status the repaired model (D7, D8)
+    computes for `-R exec` is one the specification admits -/
+theorem exec_exit_admissible (fx : Fixes) (hd7 : fx.d7 = true) (hd8 : fx.d8 = true) (S k : Bool)
+    (outs : List Outcome) (hok : ∀ o ∈ outs, okOutcome o) :
+    ExitSpec.admissible S k false outs
+      (mainExit fx ⟨S, k⟩ (.started (outs.map fun o => hostOf fx (execScript fx o)))) = true := by
+  rw [map_execHost fx hd7 outs hok]
+  exact faithful_exit_admissible fx hd8 S k outs _
+    (allFaithful_map execHostSpec outs (fun o ho => execHostSpec_faithful o (hok o ho))) hok
+
+example : ∀ o ∈ [ExitSpec.Outcome.exited 255, .killed 9, .connectFailed, .timedOut], okOutcome o := by
+  simp [okOutcome]
 
 /-- repaired in-band channel (D9 + LATE): what the -S loop sees of a target is faithful to its outcome -/
 theorem inband_host_faithful (fx : Fixes) (hd9 : fx.d9 = true) (hl : fx.late = true) (o : Outcome)
